@@ -16,9 +16,13 @@ open JP JP.Cli JP.Generated
 theorem attrs_defined : attrsDefined cliAttrReads cliSubcommands cliGlobalDests = true := by decide
 
 /-- For every input the library rejects (every class of the documented families the call can raise,
-    and the two undecodable-document errors) every handler writes one line to standard error, exits
+    the undecodable-document errors - malformed JSON, bytes that are not text, a number too long for `int()` -
+    and an expression file that is not text) every handler writes one line to standard error, exits
     with status 1 and prints no traceback - unless `--debug` is given, when it re-raises. -/
 theorem errors_caught : errorsCaught exceptionClasses cliHandlers = true := by decide
+
+/-- An expression read from a file (`-r`) is read inside a `try` block, in every handler that reads one. -/
+theorem file_reads_guarded : fileReadsGuarded cliHandlers cliAttrReads = true := by decide
 
 /-- Each handler is installed by exactly one sub-command. -/
 theorem handlers_installed : handlersInstalled cliHandlers cliSubcommands = true := by decide
@@ -30,7 +34,8 @@ theorem name_error_caught :
       onRaise exceptionClasses t "JSONPathNameError" false = ⟨1, true, false⟩ := by decide
 
 /-! ### Non-vacuity: the tables are populated and an uncaught class would be detected -/
-example : cliHandlers.length = 3 ∧ (cliHandlers.map (fun h => h.2.length)) = [2, 2, 1] := by decide
+example : cliHandlers.length = 3 ∧ (cliHandlers.map (fun h => h.2.length)) = [2, 3, 2] := by decide
+example : subclassOf exceptionClasses 8 "JSONDecodeError" "ValueError" = true ∧ subclassOf exceptionClasses 8 "JSONPatchError" "ValueError" = false := by decide
 example : onRaise exceptionClasses ([], [(["JSONPatchError"], true, true, 1)]) "KeyError" false = ⟨-1, false, true⟩ := by decide
 
 end JP.Props.C18
